@@ -1,7 +1,43 @@
+def _rerun_before_report(run):
+    """Time-dependent suites (real worker goroutine, timers, pubsub): a case that fails the property or leaves the
+    model is executed again (same script) twice; it is reported only if it fails again, otherwise it is counted
+    as inconclusive (DESIGN 2.3)."""
+    suites = {s["name"]: s for s in run.cfg["suites"]}
+
+    def retry(items):
+        keep = []
+        for item in items:
+            case, answer, sname, idx, sd = item
+            if sname not in ("batch", "net") or " => " not in case:
+                keep.append(item)
+                continue
+            inp = case.split(" => ")[0]
+            bad = 0
+            for _ in range(2):
+                pairs = [p for p in run.run_suite(suites[sname], sd, stdin_lines=inp + "\n") if not p[0].startswith("#")]
+                if not pairs or not pairs[0][1].startswith("ok"):
+                    bad += 1
+            if bad:
+                keep.append(item)
+            else:
+                run.inconclusive += 1
+                run.notes.append("not reproduced on re-run (inconclusive): %s ## %s" % (case[:200], answer[:120]))
+        return keep
+
+    run.propfails = retry(run.propfails)
+    run.diffs = retry(run.diffs)
+    for i, (n, ok, d) in enumerate(run.obligations):
+        if not ok and n in ("correspondence:batch", "correspondence:net"):
+            sname = n.split(":")[1]
+            if not [x for x in run.diffs + run.badcases if x[2] == sname]:
+                run.obligations[i] = (n, True, "differences not reproduced on re-run (counted inconclusive)")
+
+
 CHECK = {
     "suites": [
         suite("set", "c02", 300, 6000, stdin=True, args=["-suite", "set"], timeout={"quick": 300, "thorough": 900}),
         suite("batch", "c02", 120, 900, stdin=True, args=["-suite", "batch"], timeout={"quick": 300, "thorough": 900}),
+        suite("net", "c02", 0, 60, stdin=True, args=["-suite", "net"], tiers=["thorough"], timeout={"thorough": 1200}),
     ],
     "lean_sources": ["ClusterVerif/Model/C02.lean", "ClusterVerif/Spec/C02.lean", "ClusterVerif/Lemmas/C02.lean"],
     "rule": "set: 2-3 real go-ds-crdt replicas, 2-12 puts/deletes/batches over 1-3 keys with scripted deliveries (old, repeated, newest-first) "
@@ -10,6 +46,7 @@ CHECK = {
             "operation and one observation; distinct by case line",
     "trusted_base": ["in-memory DAG service shared by the replicas and harness-controlled broadcaster (set suite)",
                      "datastore wrapper classifying the writes of a publish by key prefix; recording PinTracker RPC service"],
+    "extra": [_rerun_before_report],
     "assumptions": [],
 }
 META = {
